@@ -306,12 +306,9 @@ class _Run:
         if snap_diff(pre_dir, snapshot(st.path)):
             raise Viol('replica.archive', 'array_directory_changed', str(snap_diff(pre_dir, snapshot(st.path))))
         if not valid:
-            if not isinstance(exc, ValueError):
-                raise Viol('replica.archive', f'invalid_ctype:{type(exc).__name__ if exc else "accepted"}', ctype)
-            d = snap_diff(pre_parent, snapshot(self.sb))
-            if d:
-                raise Viol('replica.archive', 'invalid_ctype_wrote_something', d)
-            self.probe('archive_invalid_ctype_refused')
+            # the statement says nothing about unsupported compression types: only the array directory is
+            # judged (above); what the call does otherwise is recorded, not demanded
+            self.probe('archive_unsupported_ctype:' + (type(exc).__name__ if exc else 'accepted'))
             return
         if old is not None and not op['overwrite']:
             if exc is None:
